@@ -82,6 +82,10 @@ func (grp *Group) mount(prefix string, subApp *App) Router {
 	if groupPath == "" {
 		groupPath = "/"
 	}
+	// the routes are registered under "/"+groupPath: key the sub-app (error handler, views, MountPath) alike
+	if groupPath[0] != '/' {
+		groupPath = "/" + groupPath
+	}
 
 	// Support for configs of mounted-apps and sub-mounted-apps
 	for mountedPrefixes, subApp := range subApp.mountFields.appList {
